@@ -651,4 +651,202 @@ theorem pmtiles_overwrite_interrupted_safe (K : Inflate) (enc : Bytes → Bytes)
     rw [crashOn_truncate]
     exact hcr i k
 
+/-! ### which reader outputs depend on header bytes 99..126 (seeded regression C12-5) -/
+
+/-- everything a successful `open_reader` has computed, and from what -/
+theorem pm_openReader_inv {K : Inflate} {file : Bytes} {r : PMTiles.Reader}
+    (h : PMTiles.openReader K file = .ok r) :
+    ∃ hb m x rc cov, readRange file ⟨0, 127⟩ = .ok hb ∧ PMTiles.decHeader hb = .ok r.header ∧
+      PMTiles.compOfCode r.header.icomp = .ok r.icomp ∧
+      readRange file r.header.metaR = .ok m ∧ K.run r.icomp m = .ok x ∧
+      readRange file r.header.root = .ok rc ∧ K.run r.icomp rc = .ok r.root ∧
+      readRange file r.header.leaf = .ok r.leaves ∧
+      PMTiles.coverDir K r.icomp r.leaves 3 PMTiles.Cover.empty r.root = .ok cov ∧
+      r.cover = cov.filterMap id := by
+  unfold PMTiles.openReader at h
+  cases h1 : readRange file ⟨0, 127⟩ with
+  | err => simp [h1] at h
+  | panic => simp [h1] at h
+  | ok hb =>
+    simp only [h1, ok_bind] at h
+    cases h2 : PMTiles.decHeader hb with
+    | err => simp [h2] at h
+    | panic => simp [h2] at h
+    | ok hd =>
+      simp only [h2, ok_bind] at h
+      cases h3 : PMTiles.compOfCode hd.icomp with
+      | err => simp [h3] at h
+      | panic => simp [h3] at h
+      | ok ic =>
+        simp only [h3, ok_bind] at h
+        cases h4 : readRange file hd.metaR with
+        | err => simp [h4] at h
+        | panic => simp [h4] at h
+        | ok m =>
+          simp only [h4, ok_bind] at h
+          cases h5 : K.run ic m with
+          | err => simp [h5] at h
+          | panic => simp [h5] at h
+          | ok x5 =>
+            simp only [h5, ok_bind] at h
+            cases h6 : readRange file hd.root with
+            | err => simp [h6] at h
+            | panic => simp [h6] at h
+            | ok rc =>
+              simp only [h6, ok_bind] at h
+              cases h7 : K.run ic rc with
+              | err => simp [h7] at h
+              | panic => simp [h7] at h
+              | ok root =>
+                simp only [h7, ok_bind] at h
+                cases h8 : readRange file hd.leaf with
+                | err => simp [h8] at h
+                | panic => simp [h8] at h
+                | ok leaves =>
+                  simp only [h8, ok_bind] at h
+                  cases h9 : PMTiles.coverDir K ic leaves 3 PMTiles.Cover.empty root with
+                  | err => simp [h9] at h
+                  | panic => simp [h9] at h
+                  | ok cov =>
+                    simp only [h9, ok_bind] at h
+                    cases h10 : PMTiles.compOfCode hd.tcomp with
+                    | err => simp [h10] at h
+                    | panic => simp [h10] at h
+                    | ok c =>
+                      simp only [h10, ok_bind, pure_eq, Outcome.ok.injEq] at h
+                      subst h
+                      exact ⟨hb, m, x5, rc, cov, rfl, h2, h3, h4, h5, h6, h7, h8, h9, rfl⟩
+
+theorem readRange_127 {file hb : Bytes} (h : readRange file ⟨0, 127⟩ = .ok hb) : 127 ≤ file.length ∧ hb = file.take 127 := by
+  unfold readRange at h
+  split at h
+  · cases h
+  · split at h
+    · cases h
+    · rename_i _ hle
+      exact ⟨by simp at hle; omega, by simpa using (Outcome.ok.inj h).symm⟩
+
+/-- **which reader outputs can depend on header bytes 99..126.**  If a crash state `s` and the
+    completed file `f` are both opened and agree (`AgreeP`: header bytes 0..99, everything behind the
+    header, the length) and the sections of `f` start behind the header, then the two readers have
+    the same directories (root, leaves), internal and tile compression, tile-data offset AND THE SAME
+    COVERAGE (`cover`, computed by walking the directories – `calc_bbox_pyramid`, reader.rs:119-158;
+    that this walk yields exactly the stored tiles is C03's `runs_cover_exact`).  What may differ are
+    only the header fields at bytes 99..126: tile type (→ declared format), min/max zoom, bounds,
+    centre – metadata the unchanged reader does not use for coverage, streams or lookups. -/
+theorem pmtiles_reader_outputs_agree {K : Inflate} {s f : Bytes} {rs rf : PMTiles.Reader}
+    (hs : PMTiles.openReader K s = .ok rs) (hf : PMTiles.openReader K f = .ok rf) (ag : AgreeP s f)
+    (hoff : 127 ≤ (pmHdr (f.take 127)).root.off ∧ 127 ≤ (pmHdr (f.take 127)).metaR.off ∧
+            127 ≤ (pmHdr (f.take 127)).leaf.off ∧ 127 ≤ (pmHdr (f.take 127)).data.off) :
+    rs.cover = rf.cover ∧ rs.root = rf.root ∧ rs.leaves = rf.leaves ∧ rs.icomp = rf.icomp ∧
+    rs.header.tcomp = rf.header.tcomp ∧ rs.header.data.off = rf.header.data.off ∧
+    rs.header.root = rf.header.root ∧ rs.header.leaf = rf.header.leaf := by
+  obtain ⟨hcore, hlen, _⟩ := ag
+  have h99 : s.take 99 = f.take 99 := (Prod.mk.inj hcore).1
+  have h127 : s.drop 127 = f.drop 127 := (Prod.mk.inj hcore).2
+  obtain ⟨hbs, ms, xs, rcs, covs, a1, a2, a3, a4, a5, a6, a7, a8, a9, a10⟩ := pm_openReader_inv hs
+  obtain ⟨hbf, mf, xf, rcf, covf, b1, b2, b3, b4, b5, b6, b7, b8, b9, b10⟩ := pm_openReader_inv hf
+  obtain ⟨ls, es⟩ := readRange_127 a1
+  obtain ⟨lf, ef⟩ := readRange_127 b1
+  have hsl : hbs.length = 127 := by rw [es]; simp; omega
+  have hfl : hbf.length = 127 := by rw [ef]; simp; omega
+  have hhs := ((pm_decHeader_iff hsl _).1 a2).2
+  have hhf := ((pm_decHeader_iff hfl _).1 b2).2
+  rw [es] at hhs; rw [ef] at hhf
+  have fld : ∀ a n, a + n ≤ 99 →
+      List.take n (List.drop a (s.take 127)) = List.take n (List.drop a (f.take 127)) := by
+    intro a n han
+    rw [take_drop_of_take s 127 a n (by omega), take_drop_of_take f 127 a n (by omega)]
+    exact take_drop_agree h99 a n han
+  have eroot : rs.header.root = rf.header.root := by
+    rw [hhs, hhf]; simp only [pmHdr]; rw [fld 8 8 (by omega), fld 16 8 (by omega)]
+  have eleaf : rs.header.leaf = rf.header.leaf := by
+    rw [hhs, hhf]; simp only [pmHdr]; rw [fld 40 8 (by omega), fld 48 8 (by omega)]
+  have edoff : rs.header.data.off = rf.header.data.off := by
+    rw [hhs, hhf]; simp only [pmHdr]; rw [fld 56 8 (by omega)]
+  have eic : rs.header.icomp = rf.header.icomp := by
+    rw [hhs, hhf]; simp only [pmHdr]; rw [fld 97 1 (by omega)]
+  have etc : rs.header.tcomp = rf.header.tcomp := by
+    rw [hhs, hhf]; simp only [pmHdr]; rw [fld 98 1 (by omega)]
+  rw [← hhf] at hoff
+  have eicomp : rs.icomp = rf.icomp := by
+    rw [eic, b3] at a3; exact (Outcome.ok.inj a3).symm
+  have erc : rcs = rcf := by
+    rw [eroot, readRange_agree hlen h127 _ hoff.1, b6] at a6; exact (Outcome.ok.inj a6).symm
+  have eroots : rs.root = rf.root := by
+    rw [eicomp, erc, b7] at a7; exact (Outcome.ok.inj a7).symm
+  have eleaves : rs.leaves = rf.leaves := by
+    rw [eleaf, readRange_agree hlen h127 _ hoff.2.2.1, b8] at a8; exact (Outcome.ok.inj a8).symm
+  have ecov : covs = covf := by
+    rw [eicomp, eleaves, eroots, b9] at a9; exact (Outcome.ok.inj a9).symm
+  exact ⟨by rw [a10, b10, ecov], eroots, eleaves, eicomp, etc, edoff, eroot, eleaf⟩
+
+/-- **the advertised coverage of a crash state that opens is that of the completed file**
+    (same hypotheses and operation sequence as `pmtiles_interrupted_write_safe`): zoom range and bounds
+    in header bytes 100..126 may still be zero, the coverage the reader computes from the directories is
+    already final. -/
+theorem pmtiles_crash_coverage (K : Inflate) (enc : Bytes → Bytes) (s : PMTiles.Source)
+    (hnil : K.gzip [] = none) (hmeta : ∃ raw, K.run .gzip s.metaB = .ok raw)
+    (file : Bytes) (hw : PMTiles.write enc s = .ok file) (hsize : file.length < U64) :
+    ∃ (data root leaves hdr : Bytes), hdr.length = 127 ∧ ∀ tl : List Bytes, tl.flatten = data →
+      (run (opsP s.metaB tl root leaves hdr)).file = file ∧
+      ∀ i k rs rf, PMTiles.openReader K (crash (opsP s.metaB tl root leaves hdr) i k) = .ok rs →
+        PMTiles.openReader K file = .ok rf →
+        rs.cover = rf.cover ∧ rs.root = rf.root ∧ rs.leaves = rf.leaves ∧ rs.icomp = rf.icomp ∧
+        rs.header.tcomp = rf.header.tcomp := by
+  obtain ⟨n, data, root, leaves, hfile⟩ := pm_write_shape hw
+  let H := PMTiles.mkHeader s root.length leaves.length data.length n
+  have hlen : (PMTiles.encHeader H).length = 127 := VtProofs.PMTiles.length_encHeader H
+  refine ⟨data, root, leaves, PMTiles.encHeader H, hlen, fun tl htl => ?_⟩
+  have hm : s.metaB ≠ [] := by
+    intro he
+    obtain ⟨raw, hr⟩ := hmeta
+    rw [he] at hr
+    simp [Inflate.run, hnil] at hr
+  have hh : PMTiles.encHeader H ≠ [] := by
+    intro he; rw [he] at hlen; simp at hlen
+  let f1 := PMTiles.writeAt [] 16384 s.metaB
+  have hl1 : f1.length = 16384 + s.metaB.length := by
+    show (PMTiles.writeAt [] 16384 s.metaB).length = _
+    rw [VtProofs.PMTilesWrite.writeAt_nil, List.length_append, List.length_replicate]
+  let f4 := PMTiles.writeAt (PMTiles.writeAt (PMTiles.writeAt f1 (16384 + s.metaB.length) data) 127 root)
+    (16384 + s.metaB.length + data.length) leaves
+  have hfile' : file = PMTiles.writeAt f4 0 (PMTiles.encHeader H) := hfile
+  have hf4len : 16384 + s.metaB.length + data.length ≤ f4.length :=
+    Nat.le_trans (Nat.le_add_right _ _)
+      (VtProofs.PMTilesWrite.length_writeAt (PMTiles.writeAt (PMTiles.writeAt f1 (16384 + s.metaB.length) data) 127 root)
+        (16384 + s.metaB.length + data.length) leaves).2
+  have hflen : f4.length ≤ file.length := by
+    rw [hfile']; exact (VtProofs.PMTilesWrite.length_writeAt f4 0 _).1
+  have hrun : (run (opsP s.metaB tl root leaves (PMTiles.encHeader H))).file = file := by
+    rw [run_opsP _ _ _ _ _ hm hh, htl, cw_eq, cw_eq, cw_eq, cw_eq, hfile']
+    have : PMTiles.writeAt f1 (16384 + s.metaB.length) data = f1 ++ data := by
+      rw [← hl1]; exact VtProofs.PMTilesWrite.writeAt_end f1 data
+    simp only [f4, this]
+    rfl
+  have htake : file.take 127 = PMTiles.encHeader H := by
+    rw [hfile']
+    unfold PMTiles.writeAt
+    simp only [Nat.not_lt_zero, if_false, List.take_zero, List.nil_append, Nat.zero_add]
+    rw [List.take_append_of_le_length (by omega), List.take_of_length_le (by omega)]
+  have hU : U64 = 256 ^ 8 := by decide
+  have hoffs := pmHdr_enc_offsets H (by show (127 : Nat) < 256 ^ 8; decide) (by show (16384 : Nat) < 256 ^ 8; decide)
+    (by show 16384 + s.metaB.length + data.length < 256 ^ 8; rw [← hU]; omega)
+    (by show 16384 + s.metaB.length < 256 ^ 8; rw [← hU]; omega)
+  have hoff : 127 ≤ (pmHdr (file.take 127)).root.off ∧ 127 ≤ (pmHdr (file.take 127)).metaR.off ∧
+      127 ≤ (pmHdr (file.take 127)).leaf.off ∧ 127 ≤ (pmHdr (file.take 127)).data.off := by
+    rw [htake, hoffs.1, hoffs.2.1, hoffs.2.2.1, hoffs.2.2.2]
+    refine ⟨?_, ?_, ?_, ?_⟩
+    · show 127 ≤ (127 : Nat); omega
+    · show 127 ≤ (16384 : Nat); omega
+    · show 127 ≤ 16384 + s.metaB.length + data.length; omega
+    · show 127 ≤ 16384 + s.metaB.length; omega
+  refine ⟨hrun, fun i k rs rf hs hf => ?_⟩
+  rcases pmtiles_crash_agree s.metaB tl root leaves (PMTiles.encHeader H) hm hlen i k with h | h
+  · exact absurd hs (pm_not_open_of_byte98 h rs)
+  · rw [hrun] at h
+    obtain ⟨c1, c2, c3, c4, c5, _⟩ := pmtiles_reader_outputs_agree hs hf h hoff
+    exact ⟨c1, c2, c3, c4, c5⟩
+
+
 end VtProps.C12
